@@ -174,7 +174,8 @@ class Worker:
         data = self.materialise(job)
         # CPU budget of this job (20 s + 2 s/MB of the ACTUAL input): the soft RLIMIT_CPU moves forward
         try:
-            soft = int(time.process_time() + 20.0 + 2.0 * len(data) / 1e6) + 2
+            # (the witness of an OPEN finding only has to show that it still does not come back: shorter budget)
+            soft = int(time.process_time() + float(job.get("cpu_budget", 20.0)) + 2.0 * len(data) / 1e6) + 2
             self.resource.setrlimit(self.resource.RLIMIT_CPU, (soft, self.resource.RLIM_INFINITY))
         except Exception:
             pass
